@@ -586,7 +586,7 @@ def run(model, rep, tier):
                           f"`{src(c)[:60]}` decodes wire octets with a lenient handler: the value is accepted, but the strict encode in to_wire()/__hash__ raises UnicodeEncodeError later, outside the "
                           "FormError wrapper", stmt=f"strict-decode {src(c.func.value)[:30]}")
     rep.floor("R-04.11", n_dec, 3)
-    rep.share(model, "C05", {"R-05.11"}, "R-04.10", "every rdata constructor runs inside the FormError wrapper of from_wire; text production of the parsed value does not")
+    rep.share(model, "C05", {"R-05.1t", "R-05.11"}, "R-04.10", "every rdata constructor runs inside the FormError wrapper of from_wire; text production of the parsed value does not")
     rep.share(model, "C02", {"R-02.2"}, "R-04.9", "rdata and EDNS options are parsed inside `with parser.restrict_to(rdlen)`; continue_on_error keeps using the same parser after a failure", only=lambda o: o.stmt == "restrict-shape")
     rep.meta["explanation"] = (
         "Interprocedural exception-escape analysis: explicit raises everywhere, a frozen table of implicit raisers (subscripts, int(), struct, encode/decode, assert, next, division) inside the parse zone, "
